@@ -152,6 +152,25 @@ class Twin:
         return f"Twin({self.other!r})"
 
 
+class Steps:
+    """REPL-style case (replayer mode `steps`): the program is a list of steps run one after the other in ONE interpreter;
+    `expects` gives the expected outcome of each step (a value, an Err, or None for `do not care`)"""
+    def __init__(self, expects):
+        self.expects = expects
+
+    def __repr__(self):
+        return "Steps(" + ", ".join(repr(e) for e in self.expects) + ")"
+
+
+STEP_SEP = "\x1e"
+
+
+class Rejected:
+    """the program must be rejected by the checker (a parse-time error of any kind)"""
+    def __repr__(self):
+        return "Rejected()"
+
+
 class Case:
     __slots__ = ("id", "prog", "vars", "mode", "expect", "what")
 
@@ -291,6 +310,25 @@ def judge(case, status, text):
     exp = case.expect
     if status == "not_run":
         return None
+    if isinstance(exp, Steps):
+        if status != "ok":
+            return f"steps: {status}: {text}"
+        outs = text.split(STEP_SEP)
+        probs = []
+        for k, e in enumerate(exp.expects):
+            if k >= len(outs):
+                probs.append(f"step {k + 1}: not reached (an earlier step panicked)")
+                break
+            st, _, tx = outs[k].partition(":")
+            if st == "panic":
+                probs.append(f"step {k + 1}: panic: {tx}")
+                break
+            if e is None:
+                continue
+            j = judge(Case(case.id, case.prog, e, case.vars, case.mode, case.what), st, tx)
+            if j:
+                probs.append(f"step {k + 1}: {j}")
+        return "; ".join(probs) or None
     if isinstance(exp, AnyOf):
         probs = []
         for alt in exp.alts:
@@ -299,6 +337,8 @@ def judge(case, status, text):
                 return None
             probs.append(j)
         return " and ".join(probs)
+    if isinstance(exp, Rejected):
+        return None if status == "parse_error" else f"expected the checker to reject the program, observed {status}: {text}"
     if isinstance(exp, Err):
         if status in ("exec_error", "parse_error") and text.split("|", 1)[0] == exp.msg:
             return None
@@ -1753,4 +1793,7 @@ FAMILIES = {
 def family(name, tier="quick", seed=0, extra=()):
     if name.startswith("arith:"):
         return fam_arith(name.split(":", 1)[1], tier, seed, extra)
+    if name in ("cells", "cells_random"):
+        import probes_cells
+        return (probes_cells.fam_cells if name == "cells" else probes_cells.fam_cells_random)(tier, seed, extra)
     return FAMILIES[name](tier, seed, extra)
